@@ -49,7 +49,7 @@ def mk_heap(src, log):
             it.h.touch(a[0].name)
             o_['parent_element'] = None
         return None
-    h = H.Heap(src.mod(PM), field_alias={'_previous_node': 'previous_node'}, extra_modules=[src.mod('_util'), src.mod('_deb822_repro.tokens')],
+    h = H.Heap(src.mod(PM), field_alias={'_previous_node': 'previous_node', '_parent_element': 'parent_element'}, extra_modules=[src.mod('_util'), src.mod('_deb822_repro.tokens')],
                opaque_ctors={'Deb822WhitespaceToken'}, hooks={'_strI': strI, '._add_final_newline_if_missing': newline_hook,
                                                               '.add_final_newline_if_missing': value_newline_hook,
                                                               '.remove_newline': lambda it, a, k: (it.h.touch(a[0].name), it.h.objs[a[0].name].__setitem__('newline_token', None), None)[2],
